@@ -10,29 +10,46 @@ import (
 	"time"
 
 	"verif/sim/common"
+	"verif/sim/instr"
 	"verif/sim/workerlib"
 )
 
 // Check holds the state of one check run (one tier).
 type Check struct {
-	E        *Env
-	Tier     string
-	Seed     uint64
-	Budget   time.Duration
-	Start    time.Time
-	Corpus   *common.Corpus
-	CorpusP  string
-	CStats   corpusStats
-	Ref      refInfo
-	RefViol  []*refViolation
-	Agg      *Agg
-	EquivN   int
-	EquivBad int
-	SyncSeen bool
-	Determ   determResult
-	NCPU     int
-	Log      func(format string, a ...interface{})
-	Timings  map[string]float64
+	E         *Env
+	Tier      string
+	Seed      uint64
+	Budget    time.Duration
+	Start     time.Time
+	Corpus    *common.Corpus
+	CorpusP   string
+	CStats    corpusStats
+	Ref       refInfo
+	RefViol   []*refViolation
+	Agg       *Agg
+	EquivN    int
+	EquivBad  int
+	SyncSeen  bool
+	Determ    determResult
+	NCPU      int
+	GrowIters int
+	Grow      growStats
+	Knob      knobStats
+	Log       func(format string, a ...interface{})
+	Timings   map[string]float64
+}
+
+type knobStats struct {
+	Accepted []instr.Knob `json:"shrunk_to_2_and_sequentially_equivalent"`
+	Rejected []string     `json:"rejected"`
+}
+
+type growStats struct {
+	Iterations int64 `json:"candidate_inputs_executed"`
+	Kept       int   `json:"inputs_kept_new_edge"`
+	EdgesBase  int   `json:"edges_before"`
+	EdgesMax   int   `json:"edges_after_best_worker"`
+	Dict       int   `json:"dictionary_strings_from_library_tables"`
 }
 
 type determResult struct {
@@ -92,6 +109,8 @@ func (c *Check) reference() {
 	c.CStats.Total = corpus.Len()
 	c.CorpusP = filepath.Join(e.Scratch, "corpus.tsv")
 	must(corpus.Write(c.CorpusP))
+	c.grow()
+	corpus = c.Corpus
 
 	var fwd, rev [][2]string
 	var errF, errR error
@@ -524,4 +543,182 @@ func (c *Check) isolateCrashers(corpus *common.Corpus) map[int]bool {
 	}
 	rec(all, 0)
 	return crash
+}
+
+// grow extends the corpus by coverage-guided mutation over the instrumented
+// (non-race) build of the CURRENT tree: inputs that reach yield-site edges no
+// corpus input reaches. A change that adds a rarely taken branch gets inputs
+// that take it. Deterministic: fixed iteration counts, seeded.
+func (c *Check) grow() {
+	iters := c.GrowIters
+	if iters == 0 {
+		iters = 60000
+		if c.Tier == "thorough" {
+			iters = 1500000
+		}
+	}
+	procs := c.NCPU
+	outs := make([]string, procs)
+	sums := make([]*workerlib.Summary, procs)
+	parallel(procs, c.NCPU, func(i int) {
+		out := filepath.Join(c.E.Scratch, "ses", fmt.Sprintf("grow%d.txt", i))
+		ses := &workerlib.Session{Mode: "cover", Corpus: c.CorpusP, Seed: c.Seed, Worker: i, Runs: iters, SeqOut: out}
+		pr := runWorker(c.E, ses, 2, 30*time.Minute)
+		if pr.Summary == nil {
+			// the non-race build died (a fatal error on some generated input):
+			// growth is best effort, the stages that decide do not depend on it
+			c.Log("corpus growth worker %d died: %v %s", i, pr.ExitErr, tail(pr.Stderr, 300))
+			return
+		}
+		outs[i] = out
+		sums[i] = pr.Summary
+	})
+	seen := map[string]bool{}
+	for _, in := range c.Corpus.In {
+		seen[in] = true
+	}
+	for i, o := range outs {
+		if o == "" {
+			continue
+		}
+		data, err := os.ReadFile(o)
+		os.Remove(o)
+		if err != nil {
+			continue
+		}
+		if s := sums[i]; s != nil {
+			c.Grow.Iterations += s.Runs
+			if s.CovEdges > c.Grow.EdgesMax {
+				c.Grow.EdgesMax = s.CovEdges
+			}
+			c.Grow.EdgesBase = s.CovEdgesBase
+			c.Grow.Dict = s.DictSize
+		}
+		for _, l := range strings.Split(string(data), "\n") {
+			if l == "" {
+				continue
+			}
+			in, err := common.UnB64(l)
+			if err != nil || seen[in] {
+				continue
+			}
+			seen[in] = true
+			c.Corpus.In = append(c.Corpus.In, in)
+			c.Corpus.Flags = append(c.Corpus.Flags, common.FGrown)
+			c.Grow.Kept++
+		}
+	}
+	c.CStats.Grown = c.Grow.Kept
+	c.CStats.Total = c.Corpus.Len()
+	must(c.Corpus.Write(c.CorpusP))
+}
+
+// smallVariant builds the knob-shrunk configuration variant and accepts it
+// only if a sequential pass over the whole corpus gives exactly the reference
+// results (so the shrink changes no sequential behaviour).
+func (c *Check) smallVariant() bool {
+	e := c.E
+	knobs := e.Report.Knobs
+	if len(knobs) == 0 {
+		return false
+	}
+	try := func(ks []instr.Knob) (bool, string) {
+		if err := prepareSmall(e, ks); err != nil {
+			return false, err.Error()
+		}
+		out := filepath.Join(e.Scratch, "seqall_small.tsv")
+		ses := &workerlib.Session{Mode: "seqall", Corpus: c.CorpusP, Seed: c.Seed, SeqOut: out, Variant: "small"}
+		pr := runWorker(e, ses, 2, 20*time.Minute)
+		if pr.Summary == nil {
+			return false, "variant dies: " + tail(pr.Stderr, 300)
+		}
+		data, err := os.ReadFile(out)
+		if err != nil {
+			return false, err.Error()
+		}
+		lines := strings.Split(strings.TrimRight(string(data), "\n"), "\n")
+		if len(lines) != c.Corpus.Len() {
+			return false, "variant: wrong number of results"
+		}
+		for i, l := range lines {
+			p := strings.Split(l, "\t")
+			for a := 0; a < 2; a++ {
+				r, _ := common.UnB64(p[2*a])
+				if r != c.Corpus.Ref[a][i] {
+					return false, fmt.Sprintf("sequential result changes (%s(%q): %q vs %q)", apiName(a), trunc(c.Corpus.In[i], 40), r, c.Corpus.Ref[a][i])
+				}
+			}
+		}
+		if pr.Summary.RaceReports > 0 {
+			return false, "variant races in a sequential pass"
+		}
+		return true, ""
+	}
+	ok, why := try(knobs)
+	if ok {
+		c.Knob.Accepted = knobs
+		return true
+	}
+	c.Knob.Rejected = append(c.Knob.Rejected, fmt.Sprintf("all %d together: %s", len(knobs), why))
+	if len(knobs) == 1 {
+		e.Small = ""
+		return false
+	}
+	// keep the knobs that are individually harmless
+	var good []instr.Knob
+	limit := 4
+	if c.Tier == "thorough" {
+		limit = 32
+	}
+	for i, k := range knobs {
+		if i >= limit {
+			break
+		}
+		if ok, why := try([]instr.Knob{k}); ok {
+			good = append(good, k)
+		} else {
+			c.Knob.Rejected = append(c.Knob.Rejected, fmt.Sprintf("%s (%s:%d): %s", k.Name, k.File, k.Line, why))
+		}
+	}
+	if len(good) == 0 {
+		e.Small = ""
+		return false
+	}
+	if ok, why := try(good); !ok {
+		c.Knob.Rejected = append(c.Knob.Rejected, "accepted knobs together: "+why)
+		e.Small = ""
+		return false
+	}
+	c.Knob.Accepted = good
+	return true
+}
+
+// searchSmall: history sweep and seeded random search on the shrunk variant.
+func (c *Check) searchSmall(firstWorker, procs, runsPer int) {
+	reps, probes := workerlib.HistLists(c.Corpus)
+	total := len(reps) * len(probes) * 2
+	hp := c.NCPU
+	per := (total/4 + hp - 1) / hp // a quarter of the history sweep
+	per = (per + 127) / 128 * 128
+	parallel(hp+procs, c.NCPU, func(i int) {
+		var ses *workerlib.Session
+		if i < hp {
+			from, to := i*per, (i+1)*per
+			if to > total {
+				to = total
+			}
+			if from >= to {
+				return
+			}
+			ses = &workerlib.Session{Mode: "hist", Corpus: c.CorpusP, Seed: c.Seed, Worker: i, From: from, To: to, Variant: "small", DistinctPath: c.distinctPath()}
+		} else {
+			w := firstWorker + i - hp
+			ses = &workerlib.Session{Mode: "rand", Corpus: c.CorpusP, Seed: c.Seed ^ 0x5a11, Worker: w, Runs: runsPer, SyncHeavy: true, Variant: "small", DistinctPath: c.distinctPath()}
+		}
+		pr := runWorker(c.E, ses, 2, 15*time.Minute)
+		if err := procOK(pr); err != nil {
+			harnessFail("small-variant search: %v", err)
+		}
+		c.Agg.add("small_variant", pr)
+	})
 }
